@@ -46,6 +46,90 @@ pub(crate) mod verif_dev {
             f(&mut [])
         }
     }
+    /// Capture of transmitted frames: the first two frames handed to `TxToken::consume` are kept
+    /// in flat buffers (harness hygiene: no 2-D arrays indexed by counters), all are counted.
+    pub(crate) struct TxState<const N: usize> {
+        pub(crate) frames: usize,
+        pub(crate) len0: usize,
+        pub(crate) len1: usize,
+        pub(crate) buf0: [u8; N],
+        pub(crate) buf1: [u8; N],
+    }
+    impl<const N: usize> TxState<N> {
+        pub(crate) fn new() -> Self {
+            TxState { frames: 0, len0: 0, len1: 0, buf0: [0; N], buf1: [0; N] }
+        }
+    }
+    pub(crate) struct CapTx<'a, const N: usize> {
+        pub(crate) st: &'a mut TxState<N>,
+    }
+    impl<'a, const N: usize> TxToken for CapTx<'a, N> {
+        fn consume<R, F: FnOnce(&mut [u8]) -> R>(self, len: usize, f: F) -> R {
+            let st = self.st;
+            let r;
+            if st.frames == 0 {
+                st.len0 = len;
+                r = f(&mut st.buf0[..len]);
+            } else {
+                st.len1 = len;
+                r = f(&mut st.buf1[..len]);
+            }
+            st.frames += 1;
+            r
+        }
+    }
+    pub(crate) struct CapRx<'a> {
+        pub(crate) frame: &'a [u8],
+    }
+    impl<'a> RxToken for CapRx<'a> {
+        fn consume<R, F: FnOnce(&[u8]) -> R>(self, f: F) -> R {
+            f(self.frame)
+        }
+    }
+    /// A device with one optional pending receive frame, symbolic transmit back-pressure (`tx_ok`)
+    /// and capture of what is transmitted.
+    pub(crate) struct CapDev<const N: usize> {
+        pub(crate) medium: Medium,
+        pub(crate) mtu: usize,
+        pub(crate) checksum: ChecksumCapabilities,
+        pub(crate) tx_ok: bool,
+        pub(crate) rx_pending: bool,
+        pub(crate) rx_len: usize,
+        pub(crate) rx: [u8; N],
+        pub(crate) tx: TxState<N>,
+    }
+    impl<const N: usize> CapDev<N> {
+        pub(crate) fn new(medium: Medium, mtu: usize, checksum: ChecksumCapabilities) -> Self {
+            CapDev { medium, mtu, checksum, tx_ok: true, rx_pending: false, rx_len: 0, rx: [0; N], tx: TxState::new() }
+        }
+    }
+    impl<const N: usize> Device for CapDev<N> {
+        type RxToken<'a> = CapRx<'a>;
+        type TxToken<'a> = CapTx<'a, N>;
+        fn capabilities(&self) -> DeviceCapabilities {
+            let mut c = DeviceCapabilities::default();
+            c.medium = self.medium;
+            c.max_transmission_unit = self.mtu;
+            c.checksum = self.checksum.clone();
+            c
+        }
+        fn receive(&mut self, _t: Instant) -> Option<(CapRx<'_>, CapTx<'_, N>)> {
+            if !self.rx_pending {
+                return None;
+            }
+            self.rx_pending = false;
+            let CapDev { rx, rx_len, tx, .. } = self;
+            Some((CapRx { frame: &rx[..*rx_len] }, CapTx { st: tx }))
+        }
+        fn transmit(&mut self, _t: Instant) -> Option<CapTx<'_, N>> {
+            if self.tx_ok {
+                Some(CapTx { st: &mut self.tx })
+            } else {
+                None
+            }
+        }
+    }
+
     impl Device for NullDev {
         type RxToken<'a> = NoRx;
         type TxToken<'a> = NoTx;
